@@ -210,7 +210,8 @@ def name_and_space(repo, chk, fn, comb, frame, args):
         it = ast.unparse(lp.iter)
         samp0 = [x for x in calls(fn) if m.dotted(x.func) == f'{CR}.prior_combinations_sample']
         space = ast.unparse(samp0[0].args[0]) if samp0 and samp0[0].args else 'full_combination_space'
-        ok_it = it in (f'enumerate({space})', space)
+        base_it = lp.iter.args[0] if isinstance(lp.iter, ast.Call) and isinstance(lp.iter.func, ast.Name) and lp.iter.func.id == 'enumerate' and lp.iter.args else lp.iter
+        ok_it = ast.unparse(base_it) == space
         st = [s for s in ast.walk(lp) if isinstance(s, ast.Assign) and isinstance(s.targets[0], ast.Subscript)]
         unp = [s for s in ast.walk(lp) if isinstance(s, ast.Assign) and isinstance(s.targets[0], ast.Tuple) and isinstance(s.value, ast.Call) and isinstance(s.value.func, ast.Name) and s.value.func.id == comb.name]
         if ok_it and len(st) == 1 and len(unp) == 1:
